@@ -47,13 +47,12 @@ func verifArg(name string, kinds int) Object {
 	return Array{}
 }
 
-// verifLongArg: a long argument of length n whose bytes/elements all equal one
-// symbolic value (lengths around buffer-size boundaries matter, contents do
-// not; one shared symbol keeps the number of paths independent of n).
+// verifLongArg: a long argument of length n (lengths around buffer-size
+// boundaries matter, contents do not: all bytes/elements are 'a').
 // kind 0 bytes, 1 string, 2 array of ints, 3 array holding the bytes and the
 // string, 4 map holding them.
 func verifLongArg(name string, n, kind int) Object {
-	b := verifrt.Byte(name + ".fill")
+	b := byte('a') // (a symbolic fill byte costs one solver query per element and adds nothing here)
 	raw := make([]byte, n)
 	for i := range raw {
 		raw[i] = b
@@ -82,13 +81,15 @@ func verifLongArg(name string, n, kind int) Object {
 func VerifCallTotal(f Object, nargs, kinds int) {
 	args := make([]Object, nargs)
 	names := [...]string{"a0", "a1", "a2", "a3", "a4"}
-	for i := range args {
-		args[i] = verifArg(names[i], kinds)
-	}
 	verifrt.AllocBudget(1 << 26)
-	if n := verifrt.Param("long"); n > 0 && nargs > 0 {
-		args[0] = verifLongArg("long", n, verifrt.Param("lk"))
-		verifrt.AllocBudget(1 << 21) // honoured sizes multiply with the long argument
+	long := verifrt.Param("long")
+	for i := range args {
+		if i == 0 && long > 0 {
+			args[0] = verifLongArg("long", long, verifrt.Param("lk"))
+			verifrt.AllocBudget(1 << 21) // honoured sizes multiply with the long argument
+			continue
+		}
+		args[i] = verifArg(names[i], kinds)
 	}
 	var v Object
 	var err error
